@@ -165,6 +165,9 @@ func (ss *sideSys) entails(e Lin) bool {
 // Join computes an upper bound of A and B. live tells which atoms matter after
 // the join (others are dropped). With widen set, only constraints of A that
 // hold in B are kept (no relaxation, no new relations).
+// ExtraThresholds: constants of the function being analysed (set by the fixpoint driver).
+var ExtraThresholds []int64
+
 // NoThresholds disables the threshold relaxation (set by the fixpoint driver after a few widening steps).
 var NoThresholds bool
 
@@ -314,6 +317,14 @@ func Join(A, B *State, live func(Atom) bool, widen bool) *State {
 					continue
 				}
 				dx, dy := bx.Sub(ax), by.Sub(ay)
+				if !dx.Bad && !dy.Bad && !dx.IsConst() && dx.Sub(dy).IsConst() {
+					// same symbolic step (up to a constant): the difference x - y changes by a constant
+					// candidate: (x - y) - (ax - ay) compared with 0 in both directions (relaxed by the join)
+					e := Var(x).Sub(Var(y)).Sub(ax.Sub(ay))
+					addCand(e)
+					addCand(e.Neg())
+					continue
+				}
 				if !dx.IsConst() || !dy.IsConst() || dx.C == 0 || dy.C == 0 {
 					continue
 				}
@@ -350,7 +361,7 @@ func Join(A, B *State, live func(Atom) bool, widen bool) *State {
 		// only relaxation, which guarantees termination: the threshold set is finite)
 		if len(c.T) == 1 && (c.T[0].K == 1 || c.T[0].K == -1) && (!widen || okA) && !(widen && NoThresholds) {
 			done := false
-			for _, th := range thresholds {
+			for _, th := range mergedThresholds() {
 				if th <= c.C {
 					continue
 				}
@@ -465,6 +476,7 @@ func Join(A, B *State, live func(Atom) bool, widen bool) *State {
 		}
 	}
 	J.touch()
+	J.Canonicalize()
 	return J
 }
 
@@ -584,3 +596,29 @@ var thresholds = func() []int64 {
 	sort.Slice(out, func(i, j int) bool { return out[i] < out[j] })
 	return out
 }()
+
+var mergedCache []int64
+var mergedFor *int64
+
+func mergedThresholds() []int64 {
+	if len(ExtraThresholds) == 0 {
+		return thresholds
+	}
+	if mergedFor == &ExtraThresholds[0] {
+		return mergedCache
+	}
+	set := map[int64]bool{}
+	for _, t := range thresholds {
+		set[t] = true
+	}
+	for _, t := range ExtraThresholds {
+		set[t] = true
+	}
+	out := make([]int64, 0, len(set))
+	for v := range set {
+		out = append(out, v)
+	}
+	sort.Slice(out, func(i, j int) bool { return out[i] < out[j] })
+	mergedCache, mergedFor = out, &ExtraThresholds[0]
+	return out
+}
